@@ -682,7 +682,7 @@ def _approx_cmp(w, oracle, rtol):
     def cmp(real_t, expected, what):
         msg = coherence(real_t, w.absent_id())
         if msg:
-            w.fail('coherence', what + ': ' + msg)
+            w.fail(oracle + '.incoherent', what + ': ' + msg)
         s = Snap(real_t)
         shadow = expected.copy()
         if s.m.shape == shadow.m.shape:
@@ -738,7 +738,7 @@ def op_rankdata(w, ev, slot):
         # ties: any assignment of the tied block's consecutive ranks
         msg = coherence(real_t, w.absent_id())
         if msg:
-            w.fail('coherence', what + ': ' + msg)
+            w.fail('rank.result.incoherent', what + ': ' + msg)
         s = Snap(real_t)
         shadow = exp.copy()
         if s.m.shape == shadow.m.shape:
@@ -796,7 +796,7 @@ def op_subsample(w, ev, slot):
     def adopt(res):
         msg = coherence(res, w.absent_id())
         if msg:
-            w.fail('coherence', 'subsample result: ' + msg)
+            w.fail('subsample.result.incoherent', 'subsample result: ' + msg)
         s = Snap(res)
         orc = 'subsample.result'
         pos = [{i: k for k, i in enumerate(ids[a])} for a in (0, 1)]
